@@ -183,6 +183,28 @@ def run(tier):
         nfloat += 1
         if isinstance(out, tuple):
             failures.append(dict(kind='input', summary=f'float run raised {out[1]}', config=dict(cfg=[str(c) for c in cfg], lens=[str(l) for l in lens])))
+    # lengths (and max_total_size) as Python ints and as numpy integer scalars of every width and signedness - frame counts read
+    # from a header are often np.uint32: the batches must be those of the exact run (integer arithmetic is exact in all of them)
+    import numpy as np
+    import warnings
+    ntyped, tys = 0, [int, np.int64, np.uint32, np.int32, np.uint64, np.uint8, np.int16, np.uint16]
+    with warnings.catch_warnings():
+        warnings.simplefilter('ignore')
+        for i, (cfg, lens) in enumerate(cases):
+            if ntyped >= (700 if tier == 'quick' else 8000):
+                break
+            if any(l.denominator != 1 or l > 200 for l in lens) or (cfg[2] is not None and (cfg[2].denominator != 1 or cfg[2] > 200)):
+                continue
+            ty = tys[ntyped % len(tys)]
+            ntyped += 1
+            cfg2 = list(cfg)
+            if cfg[2] is not None and ntyped % 3:
+                cfg2[2] = ty(int(cfg[2]))
+            out = run_impl(ld, tuple(cfg2), [ty(int(l)) for l in lens])
+            if out != outs[i]:
+                failures.append(dict(kind='input', summary=f'lengths given as {ty.__name__}: cfg={[str(c) for c in cfg]} lens={[str(l) for l in lens]} gives {out!r}; '
+                                     f'the same numbers as exact rationals give {outs[i]!r}'[:600],
+                                     config=dict(cfg=[str(c) for c in cfg], lens=[str(l) for l in lens], numeric_type=ty.__name__), got_from_impl=repr(out)[:600]))
     bad = eval_cases(coq, f'C17_{tier}')
     seen = set(id(f) for f in failures)
     for i, dump in bad:
@@ -195,7 +217,7 @@ def run(tier):
                rule=f'(parameters, length sequence): sequences over the alphabet {{1,2,3,5}} up to length {4 if tier == "quick" else 6} '
                     f'({nseq} sequences) x a grid of {ngrid} parameter settings, sampled; plus random rational sequences of length 5..40; '
                     'non-trivial = distinct case with >= 2 examples',
-               traces_validated_against_impl=len(cases), disagreements_checked=len(bad), float_runs_checked_against_predicates=nfloat,
+               traces_validated_against_impl=len(cases), disagreements_checked=len(bad), float_runs_checked_against_predicates=nfloat, integer_typed_runs_compared_with_exact_run=ntyped,
                outcome_histogram=dict(collections.Counter('raised' if isinstance(o, tuple) else f'{len(o)} batches' for o in outs).most_common(12)),
                length_histogram=dict(sorted(collections.Counter(len(l) for c, l in cases).items())),
                samples=[dict(cfg=[str(c) for c in cases[i][0]], lens=[str(l) for l in cases[i][1]], emitted=outs[i]) for i in (0, 5, len(cases) - 1)],
@@ -214,5 +236,15 @@ def replay(payload):
     out = run_impl(ld, cfg, lens)
     fails = predicates(cfg, lens, out)
     bad = eval_cases([coq_case(cfg, lens, out)], 'replay17')
+    typed = False
+    if c.get('numeric_type'):
+        import numpy as np
+        ty = int if c['numeric_type'] == 'int' else getattr(np, c['numeric_type'])
+        for with_mts in (True, False):
+            cfg2 = list(cfg)
+            if with_mts and cfg[2] is not None:
+                cfg2[2] = ty(int(cfg[2]))
+            typed = typed or run_impl(ld, tuple(cfg2), [ty(int(l)) for l in lens]) != out
+        print('  run with lengths of type', c['numeric_type'], 'differs from the exact run:', typed)
     print('  impl:', out, '\n  predicate failures:', fails, '\n  model disagreement:', bad)
-    return bool(fails or bad)
+    return bool(fails or bad or typed)
